@@ -241,8 +241,49 @@ fn mega_case(k: u64) -> Case {
         ..Case::default()
     }
 }
+/// Special constructs at the bottom of a nest whose depth sits at and around every power of two
+/// up to 2^14: whatever a driver does differently from some depth on meets every kind of node.
+pub const EDGE_LEAVES: [&str; 10] = ["[? a : b, c]", "[a: b, c]", "{a: b}", "? a\n", "&x [y, *x]", "!t z", "\"q\"", "[[], {}]", "- [? [a]: b]", "*u"];
+pub const EDGE_OPENERS: [&str; 2] = ["- ", "? "];
+pub fn edge_depths() -> Vec<usize> {
+    let mut v = vec![1, 2, 3];
+    for p in 3..=14 {
+        let b = 1usize << p;
+        v.extend([b - 1, b, b + 1]);
+    }
+    v
+}
+pub fn edge_count() -> u64 {
+    (edge_depths().len() * EDGE_LEAVES.len() * EDGE_OPENERS.len() * 2) as u64
+}
+fn edge_case(k: u64) -> Case {
+    let client = if k % 2 == 0 { Client::LoadMulti } else { Client::PeekNext };
+    let k = k / 2;
+    let opener = EDGE_OPENERS[(k % 2) as usize];
+    let k = k / 2;
+    let leaf = EDGE_LEAVES[(k % EDGE_LEAVES.len() as u64) as usize];
+    let ds = edge_depths();
+    let depth = ds[((k / EDGE_LEAVES.len() as u64) as usize) % ds.len()];
+    let mut text = String::with_capacity(depth * 2 + 32);
+    for _ in 0..depth {
+        text.push_str(opener);
+    }
+    text.push_str(leaf);
+    if !text.ends_with('\n') {
+        text.push('\n');
+    }
+    Case {
+        prop: "C17".into(),
+        gen: "L-edge-leaf".into(),
+        text,
+        input: InputKind::Str,
+        peeks: if client == Client::PeekNext { vec![0, 1, 0, 0, 2] } else { vec![] },
+        client,
+        ..Case::default()
+    }
+}
 pub fn probe_count() -> u64 {
-    (PROBE_FAMILIES.len() * PROBE_SIZES.len() * PROBE_TAILS.len() * 3) as u64 + deep_count() + huge_count() + distance_count()
+    (PROBE_FAMILIES.len() * PROBE_SIZES.len() * PROBE_TAILS.len() * 3) as u64 + deep_count() + huge_count() + distance_count() + edge_count()
 }
 fn probe_case(k: u64) -> Case {
     if k < huge_count() {
@@ -253,6 +294,10 @@ fn probe_case(k: u64) -> Case {
         return distance_case(k);
     }
     let k = k - distance_count();
+    if k < edge_count() {
+        return edge_case(k);
+    }
+    let k = k - edge_count();
 
     if k < deep_count() {
         let client = [Client::PeekNext, Client::LoadMulti, Client::LoadSingle][(k % 3) as usize].clone();
@@ -307,7 +352,7 @@ pub fn exhaustive_plan(ctx: &Ctx, thorough: bool) -> (u64, String) {
     (
         total + probe_count() + mega_count(),
         format!(
-            "every peek/next history (0..2 peeks before each next, 7 after-StreamEnd tails) of {} streams with up to {} events; plus {} large probe streams ({:?} at {:?} bytes x 7 back-referring tail documents x 3 clients, and block nests of 255..150 000 levels x 4 openers x 3 clients, alone and followed by further documents; an anchor and its alias 1..65 536 documents apart x 3 clients; every one of the regular input families of the instruction clock at 700 kB (thorough: and 2.8 MB) x 3 clients)",
+            "every peek/next history (0..2 peeks before each next, 7 after-StreamEnd tails) of {} streams with up to {} events; plus {} large probe streams ({:?} at {:?} bytes x 7 back-referring tail documents x 3 clients, and block nests of 255..150 000 levels x 4 openers x 3 clients, alone and followed by further documents; an anchor and its alias 1..65 536 documents apart x 3 clients; 10 special constructs at the bottom of nests of 2^k-1, 2^k, 2^k+1 levels (k = 3..14) x 2 openers x 2 clients; every one of the regular input families of the instruction clock at 700 kB (thorough: and 2.8 MB) x 3 clients)",
             t.len(),
             max_m,
             probe_count(),
